@@ -27,14 +27,22 @@ def claim_name(unique: int, mfr: int, inst_lo: int = 0, inst_hi: int = 0, functi
 class Pool:
     """Decodable message templates drawn from the database."""
 
-    def __init__(self, dbx, rng: random.Random, n_single=10, n_fast=6, only_encodable=False):
+    def __init__(self, dbx, rng: random.Random, n_single=10, n_fast=6, only_encodable=False, max_fast_len=60):
         self.dbx = dbx
         self.rng = rng
         ok = [d for d in dbx.defs if d.supported and d.fixed_layout and d.type in ("Single", "Fast")
               and d.pgn != CLAIM_PGN and not d.fallback and (d.encodable or not only_encodable)
               and not any(f.offset is not None for f in d.fields)]
         singles = [d for d in ok if d.type == "Single" and (d.length or 9) <= 8]
-        fasts = [d for d in ok if d.type == "Fast" and d.length is not None and d.length <= 60]
+        fasts = [d for d in ok if d.type == "Fast" and d.length is not None and d.length <= max_fast_len]
+        if max_fast_len > 60:
+            # make sure the long ones are represented (they are few)
+            long_ones = [d for d in fasts if d.length > 100]
+            rng.shuffle(long_ones)
+            fasts = long_ones[:2] + [d for d in fasts if d not in long_ones[:2]]
+            self.singles = rng.sample(singles, min(n_single, len(singles)))
+            self.fasts = fasts[:2] + rng.sample(fasts[2:], min(max(n_fast - 2, 0), len(fasts) - 2))
+            return
         self.singles = rng.sample(singles, min(n_single, len(singles)))
         self.fasts = rng.sample(fasts, min(n_fast, len(fasts)))
         # sibling definitions of the same PGN number travel together: one long-lived decoder must keep them apart
